@@ -40,18 +40,16 @@ THEOREMS = [
     "FaxVerif.C17.call_exactly_when_runnable",
     "FaxVerif.C17.plan_is_the_call",
     "FaxVerif.C17.failure_propagates",
-    "FaxVerif.C17.failure_class_partial",
-    "FaxVerif.C17.failure_class_counterexample",
+    "FaxVerif.C17.failure_class",
     "FaxVerif.C17.missing_result",
-    "FaxVerif.C17.success_returns_partial",
-    "FaxVerif.C17.success_returns_counterexample",
+    "FaxVerif.C17.success_returns",
     "FaxVerif.C17.returns_only_on_success",
     "FaxVerif.C17.result_is_plan_then_finish",
     "FaxVerif.C17.pulled_count",
-    "FaxVerif.C17.undecodable_raises",
+    "FaxVerif.C17.output_content_irrelevant",
     "FaxVerif.C17.tempdir_released",
     "FaxVerif.C17.machine",
-    "FaxVerif.C17.spec_partial",
+    "FaxVerif.C17.spec_holds",
     "FaxVerif.C17.spec_generated",
     "FaxVerif.C17.generated_recognised",
     "FaxVerif.C17.generated_backends_wellformed",
@@ -62,7 +60,8 @@ RULE = (
     "spellings with //, /./, trailing slash, // and /// roots, relative paths against a cwd; list of str / list of Path / "
     "tuple / single str / single Path) x image,tag (defaults or drawn) x output directory (none / existing / missing) x "
     "query metadata (0-3 docker entries with or without image key, before and after the Select, other metadata, one "
-    "unknown metadata type) x container outcome (0-4 chunks of stdout/stderr incl. multi-byte UTF-8; success, "
+    "unknown metadata type) x container outcome (0-4 chunks of stdout/stderr incl. multi-byte UTF-8, Latin-1 bytes and "
+    "multi-byte characters split over two chunks; success, "
     "DockerException or another exception raised by docker.run itself or after chunk k; result file written or not). "
     "A small grid (file-list kind x metadata shape x outcome kind) is enumerated, the rest is drawn from VERIF_SEED. "
     "A case is non-trivial when the constructor accepts it and it has >=2 files or >=1 docker metadata or a "
@@ -81,7 +80,6 @@ ASSUMPTIONS = [
     "'share one directory' is lexical (Path.parent equality), as in the code: d0/../d0/a.root and d0/b.root count as different directories",
     "the query's result is a TTree (every query the three executors accept) and no directory named like the result file exists in the output directory",
     "the container leaves only UTF-8 text files or .root files in /results (the debug dump reads every other file as text)",
-    "container output chunks decode as UTF-8 (defect exclusion: see the listed known finding and success_returns_counterexample)",
 ]
 
 sys.path.insert(0, str(Path(__file__).resolve().parent.parent))
@@ -443,6 +441,11 @@ TEXTS = ["hello\n", "", "line 1\nline 2\n", "café\n", "日本\n", "ok \U0001F60
 DIR_FILES = {"{B}/d0": ["a.root", "b.root", "c.root"], "{B}/d1": ["a.root", "z.root"], "{B}/d0/sub": ["s.root"]}
 
 
+# byte strings that are NOT valid UTF-8 (already in the latin-1 carrier form): Latin-1 text, the two halves of a split
+# multi-byte character, a lone 0xff, a truncated 4-byte sequence
+RAW_CHUNKS = ["caf\xe9\n", "\xc3", "\xa9\n", "\xff", "\xf0\x9f\x98", "ok \xe9\xe8 \x80\n"]
+
+
 def latin(text: str) -> str:
     """UTF-8 bytes of `text`, carried as a latin-1 string (JSON-able bytes)."""
     return text.encode("utf-8").decode("latin-1")
@@ -532,7 +535,7 @@ def gen_mds(rng) -> Tuple[List[Dict[str, Any]], List[Dict[str, Any]]]:
 
 def gen_outcome(rng) -> Dict[str, Any]:
     n = rng.choice([0, 1, 1, 2, 2, 3, 4])
-    chunks = [[rng.choice(["stdout", "stdout", "stderr"]), latin(rng.choice(TEXTS))] for _ in range(n)]
+    chunks = [[rng.choice(["stdout", "stdout", "stderr"]), rng.choice(RAW_CHUNKS) if rng.random() < 0.15 else latin(rng.choice(TEXTS))] for _ in range(n)]
     r = rng.random()
     ending = "success" if r < 0.88 else ("docker_error" if r < 0.96 else "other_error")
     at_call = ending != "success" and rng.random() < 0.3
@@ -573,7 +576,7 @@ def grid_cases(tier: str) -> List[Dict[str, Any]]:
         ([], []), ([d("one:1")], []), ([], [d("one:1")]), ([d("inner:1")], [d("outer:2")]),
         ([{"metadata_type": "docker"}], [d("outer:2")]), ([d("inner:1"), dict(OTHER_MD)], [{"metadata_type": "docker"}]),
     ]
-    ch = [["stdout", "a\n"], ["stderr", "b\n"], ["stdout", latin("café\n")]]
+    ch = [["stdout", "a\n"], ["stderr", "caf\xe9\n"], ["stdout", latin("café\n")]]
     outcomes = [
         {"chunks": ch, "ending": "success", "at_call": False, "write_result": True},
         {"chunks": [], "ending": "success", "at_call": False, "write_result": True},
@@ -643,12 +646,10 @@ def canon_call(c: Dict[str, Any]) -> Dict[str, Any]:
     return {"image": c["image"], "command": c["command"], "volumes": sorted(vols)}
 
 
-def canon_obs(o: Dict[str, Any], all_decode: bool) -> Dict[str, Any]:
+def canon_obs(o: Dict[str, Any]) -> Dict[str, Any]:
     """What model and implementation are compared on (nothing the property does not talk about)."""
-    r = {k: o[k] for k in ("ctorFailed", "err", "returned", "seenFilelist", "packageOk", "delivered", "runDirLive", "leftover")}
+    r = {k: o[k] for k in ("ctorFailed", "err", "returned", "seenFilelist", "packageOk", "pulled", "delivered", "runDirLive", "leftover")}
     r["calls"] = [canon_call(c) for c in o["calls"]]
-    if all_decode:
-        r["pulled"] = o["pulled"]
     return r
 
 
@@ -707,6 +708,16 @@ def judge(ctx, stream: str, e: Dict[str, Any], known_key: Optional[str] = None) 
     ctx.count(f"docker-md:{sum(1 for x in r['model_inputs']['mds'] if x['docker'])}")
     ctx.count(f"container:{case['outcome']['ending']}" + ("@call" if case["outcome"].get("at_call") else f"@chunk{len(case['outcome']['chunks'])}" if case["outcome"]["ending"] != "success" else ""))
     ctx.count("calls:%d" % len(ob["calls"]))
+
+    def _undecodable(t: str) -> bool:
+        try:
+            t.encode("latin-1").decode("utf-8")
+            return False
+        except UnicodeDecodeError:
+            return True
+
+    if any(_undecodable(t) for _, t in case["outcome"].get("chunks", [])):
+        ctx.count("output:has-non-utf8-chunk")
     ctx.case(case, nontrivial(case, e), {"case": case, "implementation": ob, "model_kinds": m.get("kinds")})
     held = bool(s.get("holds", False))
     if not held:
@@ -717,7 +728,7 @@ def judge(ctx, stream: str, e: Dict[str, Any], known_key: Optional[str] = None) 
             observed={"observation": ob, "info": r["info"], "failed_clauses": s.get("failed")},
             how=HOW,
         )
-    cm, ci = canon_obs(m["obs"], m.get("allDecode", True)), canon_obs(ob, m.get("allDecode", True))
+    cm, ci = canon_obs(m["obs"]), canon_obs(ob)
     if cm != ci:
         diff = {k: {"model": cm[k], "implementation": ci[k]} for k in cm if cm[k] != ci.get(k)}
         ctx.disagreement("execute_result_async", case, diff, {"info": r["info"]})
@@ -759,21 +770,14 @@ def replay_fixed(ctx, entry: Dict[str, Any]):
 
 
 def check_pure_functions(ctx, results: List[Dict[str, Any]]):
-    """Tie of the two pure sub-models: pathlib parsing and strict UTF-8 decoding."""
+    """Tie of the pure sub-model: pathlib parsing."""
     from pathlib import PurePosixPath
 
     paths = path_requests(results)
     extra = ["", ".", "/", "//", "///", "a", "a/", "./a", "a/./b", "a//b", "//a/b", "///a/b", "a/..", "../a", "/a/../b/", "/.", "./", ".//.", "a/b/c.root"]
     paths = sorted(set(paths) | set(extra))
-    rng = ctx.rng
-    blobs: List[bytes] = [t.encode() for t in TEXTS] + [b"\xc3", b"\xa9", b"caf\xe9", b"\xed\xa0\x80", b"\xc0\xaf", b"\xf4\x90\x80\x80", b"\xf0\x9f\x98", b"\xe0\x80\x80", b"\xef\xbf\xbf"]
-    lead = [0x00, 0x41, 0x7F, 0x80, 0xBF, 0xC0, 0xC1, 0xC2, 0xDF, 0xE0, 0xE1, 0xEC, 0xED, 0xEE, 0xEF, 0xF0, 0xF1, 0xF3, 0xF4, 0xF5, 0xFF, 0x9F, 0xA0, 0x8F, 0x90]
-    for _ in range(400 if ctx.tier == "quick" else 4000):
-        n = rng.randrange(0, 6)
-        blobs.append(bytes(rng.choice(lead) for _ in range(n)))
-    reqs = [{"op": "path", "s": p} for p in paths] + [{"op": "utf8", "bytes": list(b)} for b in blobs]
-    ans = ctx.driver(DRIVER, reqs)
-    for p, a in zip(paths, ans[: len(paths)]):
+    ans = ctx.driver(DRIVER, [{"op": "path", "s": p} for p in paths])
+    for p, a in zip(paths, ans):
         if "bad" in a:
             return
         pp = PurePosixPath(p)
@@ -782,17 +786,6 @@ def check_pure_functions(ctx, results: List[Dict[str, Any]]):
         ctx.count("pathlib-compared")
         if want != got:
             ctx.disagreement("pathlib.PurePosixPath", {"path": p}, got, want)
-    for b, a in zip(blobs, ans[len(paths):]):
-        if "bad" in a:
-            return
-        try:
-            b.decode()
-            want_ok = True
-        except UnicodeDecodeError:
-            want_ok = False
-        ctx.count("utf8-compared")
-        if a.get("valid") != want_ok:
-            ctx.disagreement("bytes.decode", {"bytes": list(b)}, a.get("valid"), want_ok)
 
 
 def check_table(ctx):
@@ -839,8 +832,17 @@ def run(ctx):
         ev = evaluate(ctx, [e["input"] for e in known])
         for entry, e in zip(known, ev):
             judge(ctx, "known-finding", e, known_key=entry["key"])
+    fixed_cases = []
     for entry in ctx.known_entries("fixed"):
-        replay_fixed(ctx, entry)
+        if entry["input"].get("kind") == "fresh_interpreter_ctor":
+            replay_fixed(ctx, entry)
+        elif entry["input"].get("backend") in usable_backends():
+            fixed_cases.append(entry)
+    if fixed_cases:  # repaired defects keyed by a concrete case: a failure now is a regression, i.e. a VIOLATION
+        ev = evaluate(ctx, [e["input"] for e in fixed_cases])
+        for entry, e in zip(fixed_cases, ev):
+            held = judge(ctx, "fixed-finding", e, known_key="regressed:" + entry["key"])
+            ctx.count("fixed-replay:" + ("ok" if held else "failed"))
     ctx.check_time()
 
     # 2. corpus, grid, generated cases
@@ -871,9 +873,7 @@ def run(ctx):
         ("grid of 6 file-list shapes x 6 metadata shapes x 9 container outcomes x 3 backends" if ctx.tier == "thorough"
          else "grid of 3 file-list shapes x 6 metadata shapes x 5 container outcomes (backend rotating)")
     )
-    ctx.extra_cov["defect_exclusions"] = [
-        "container output that is not valid UTF-8 (known finding): exercised only by the known-findings stream"
-    ]
+    ctx.extra_cov["defect_exclusions"] = []
 
 
 # ------------------------------------------------------------------------------------------------
@@ -986,16 +986,18 @@ LEVEL_TEXT = (
     "is /data/<name> per file in order and names the files inside the mounted directory; the image is the innermost docker "
     "metadata's, else image:tag; the volume list is package ro at /scripts, package at /results, data directory ro at "
     "/data plus the backend's cache volumes (per-backend facts regenerated from the source on every run); any container "
-    "failure or missing result file is an error with nothing returned; a result is returned only when everything went "
-    "well; the temporary directory is created once and removed on every path, and every step happens while it exists. "
+    "failure or missing result file is an error (the container's own exception) with nothing returned; valid inputs with "
+    "a succeeding container that leaves its result always return the copied file; what the container prints (valid UTF-8 "
+    "or not) never changes the outcome; a result is returned only when everything went well; the temporary directory is created once and removed on every path, and every step happens while it exists. "
     "The model is tied to the code on every run by executing the real constructor and the real execute_result_async "
     "(asyncio) with a scripted stand-in python_on_whales on a grid plus seeded random cases; the decidable Spec is also "
     "evaluated on the implementation's own observations."
 )
 LEVEL_NOTE = (
-    "Partial: 'success returns the result' and 'the container's own error arrives' are proved under the decidable "
-    "hypothesis that every output chunk is valid UTF-8; without it the code raises UnicodeDecodeError although the container "
-    "succeeded (counterexample theorems + listed known finding, replayed every run). Trusted: Lean kernel (axioms audited); "
+    "All property theorems are full strength; the only hypotheses left are two decidable sanity conditions on a backend's "
+    "row (main script in its package, cache mount points distinct), proved by `decide` for the table regenerated from the "
+    "source. The two repaired defects (constructor assert on tempfile.tempdir; UnicodeDecodeError on undecodable container "
+    "output) are replayed on the real code every run as `fixed` findings. Trusted: Lean kernel (axioms audited); "
     "agreement of the hand model with the Python is checked by differential execution, not proved; the stand-in docker "
     "client, harness, generators and translator; TemporaryDirectory's contract (also observed by a leftover census in every "
     "case); real docker and the images are out of reach in the sandbox."
